@@ -12,9 +12,9 @@ class HarnessTimeout(BaseException):
 
 
 def deadline(seconds_env, default, on_timeout):
-    """run the observer under a wall-clock limit (SIGALRM in the process's main thread; the
-    library is pure Python, so the handler runs between two byte codes).  Scenarios are tiny:
-    the unchanged library answers each in milliseconds."""
+    """run the observer under a CPU-time limit (ITIMER_VIRTUAL / SIGVTALRM in the process's main
+    thread; the library is pure Python, so the handler runs between two byte codes and a hang
+    burns CPU).  Scenarios are tiny: the unchanged library answers each in milliseconds."""
     import functools
     import os
     import signal
@@ -30,15 +30,16 @@ def deadline(seconds_env, default, on_timeout):
             def onalarm(signum, frame):
                 raise HarnessTimeout()
 
-            old = signal.signal(signal.SIGALRM, onalarm)
-            signal.setitimer(signal.ITIMER_REAL, secs)
+            # CPU time of this process, not wall time: a busy machine must not turn into an alarm
+            old = signal.signal(signal.SIGVTALRM, onalarm)
+            signal.setitimer(signal.ITIMER_VIRTUAL, secs)
             try:
                 return fn(*a, **kw)
             except HarnessTimeout:
                 return on_timeout(*a, **kw)
             finally:
-                signal.setitimer(signal.ITIMER_REAL, 0)
-                signal.signal(signal.SIGALRM, old)
+                signal.setitimer(signal.ITIMER_VIRTUAL, 0)
+                signal.signal(signal.SIGVTALRM, old)
 
         return w
 
